@@ -393,6 +393,53 @@ def idle_check(ctx):
                      f"the network timeout, yet the association was aborted (answers {r['answers']})", case)
 
 
+def record_check(ctx):
+    """Grouping of the peer's bytes into TLS records (Model/Wake.lean): a raw peer writes several complete requests in
+    ONE write - one TLS record, one TCP segment - to a real acceptor and then waits; every one of them must be read
+    and answered without any further byte from the peer (plain TCP as the control)."""
+    import multiprocessing as mp
+
+    from harness import poolinit
+    from harness.props import c07
+
+    jobs = [("coalesced", tls, lead, False) for tls in (False, True) for lead in ((2, 3) if ctx.quick else (2, 3, 5, 8, 16))]
+    pool = mp.get_context("fork").Pool(processes=4, maxtasksperchild=1, initializer=poolinit.no_join_at_exit)
+    try:
+        results = pool.map(_record_job, jobs, chunksize=1)
+    finally:
+        pool.terminate()
+        pool.join()
+    from harness import rawpeer
+    from translate import transport
+
+    consults = transport.extract()[0] == "_HAS_SSL and isinstance(self.socket, ssl.SSLSocket)"
+    size = len(rawpeer.c_echo_rq(1, 1))
+    model = ctx.lean([["wake.run", tls, consults, [size] * lead, [size * lead]] for _, tls, lead, _ in jobs])
+    for (_, tls, lead, _), r, m in zip(jobs, results, model):
+        case = ["records", tls, lead]
+        ctx.case(case, nontrivial=True, kind=f"records:{'tls' if tls else 'tcp'}:{lead}-requests-in-one-write")
+        if "harness_error" in r or not r.get("established"):
+            ctx.diff(case, r, "n/a", "scenario harness failed")
+            continue
+        if m != 0:
+            ctx.diff(case, r, m, "the model strands a PDU where the code consults pending()")
+        if r["echo_answers"] != lead:
+            ctx.fail(f"framing:pdu-stranded:{'tls' if tls else 'tcp'}",
+                     f"{'TLS' if tls else 'TCP'} peer wrote {lead} complete requests in one write and waited: {r['echo_answers']} answered "
+                     f"(PDU types seen {r['pdus']})", case)
+
+
+def _record_job(job):
+    from harness.props import c07
+
+    try:
+        return c07.coalesced_scenario(job[1], job[2], release_in_same_write=job[3])
+    except Exception:
+        import traceback
+
+        return {"harness_error": traceback.format_exc()[-800:]}
+
+
 def run(ctx):
     ctx.rule = (
         "generated PDU streams (P-DATA-TF with 1-3 PDVs of 1..9000 bytes, release, abort), optional truncated tail or "
@@ -420,6 +467,7 @@ def run(ctx):
         pending.append((case, real, ["frame", c["stream"], oracle]))
     flush(ctx, pending)
     idle_check(ctx)
+    record_check(ctx)
     if not ctx.quick:
         # small-scope exhaustive: a 5-PDU stream, every single cut + every close offset, byte-at-a-time reads
         rng = ctx.rng
@@ -445,6 +493,10 @@ def run(ctx):
 
 def replay(ctx, case):
     c = case["case"]
+    if c[0] == "records":
+        r = _record_job(("coalesced", bool(c[1]), int(c[2]), False))
+        print(r)
+        return 0 if r.get("echo_answers") == int(c[2]) else 1
     if c[0] == "slow-answer":
         r = slow_answer_scenario(tuple(c[1]))
         print(r)
